@@ -11,7 +11,7 @@
    injectivity of H, the values used as leaves are never pair hashes, the byte order is a
    strict total order.  They are satisfiable: Example C17_free_algebra below. *)
 From SC Require Import Lib.Prelude Lib.Int Lib.Host Model.Merkle Proofs.Merkle Proofs.C17Dist Run.C17
-  Proofs.MerkleInst Proofs.C17Monitor Proofs.MerkleHasher.
+  Proofs.MerkleInst Proofs.C17Monitor Proofs.MerkleHasher Proofs.C17Pad.
 
 (* ======================= completeness ======================= *)
 
@@ -125,6 +125,36 @@ Theorem C17_sorted_nonmember :
   verify deqb H gtb p (troot (cpair H gtb) t) v = false.
 Proof. exact sorted_nonmember. Qed.
 Print Assumptions C17_sorted_nonmember.
+
+(* NO DIGEST IS NEUTRAL: the honest proof of a leaf with one more element [x] - ANY digest, in particular
+   the 32-byte values an implementation might treat as padding (all-zero, all-ones, ...) - inserted at any
+   position k ([insert_at k x p] = firstn k p ++ x :: skipn k p) is refused, in both forms, for every tree
+   with pairwise different leaves (no hypothesis on x: it may be a leaf, a node or the root of the tree). *)
+Theorem C17_sorted_no_neutral_element :
+  forall (D : Type) (deqb : D -> D -> bool) (H : D -> D -> D),
+  (forall a b : D, deqb a b = true <-> a = b) ->
+  (forall a b c d : D, H a b = H c d -> a = c /\ b = d) ->
+  forall gtb : D -> D -> bool,
+  (forall a b : D, gtb a b = true -> gtb b a = false) ->
+  (forall a b : D, gtb a b = false -> gtb b a = false -> a = b) ->
+  forall leafp : D -> Prop, (forall a b : D, ~ leafp (cpair H gtb a b)) ->
+  forall (t : tree D) (path : list bool) (v x : D) (k : nat),
+  Forall leafp (leaves t) -> NoDup (leaves t) -> lookup t path = Some (Lf v) ->
+  verify deqb H gtb (firstn k (proof_of (cpair H gtb) t path) ++ x :: skipn k (proof_of (cpair H gtb) t path))
+         (troot (cpair H gtb) t) v = false.
+Proof. exact sorted_no_neutral_element. Qed.
+Print Assumptions C17_sorted_no_neutral_element.
+
+Theorem C17_indexed_no_neutral_element :
+  forall (D : Type) (deqb : D -> D -> bool) (H : D -> D -> D),
+  (forall a b : D, deqb a b = true <-> a = b) ->
+  (forall a b c d : D, H a b = H c d -> a = c /\ b = d) ->
+  forall leafp : D -> Prop, (forall a b : D, ~ leafp (H a b)) ->
+  forall (t : tree D) (path : list bool) (v x : D) (k : nat) (i : Z),
+  Forall leafp (leaves t) -> NoDup (leaves t) -> 0 <= i -> lookup t path = Some (Lf v) ->
+  verify_with_index deqb H (firstn k (proof_of H t path) ++ x :: skipn k (proof_of H t path)) (troot H t) v i <> Ok true.
+Proof. exact indexed_no_neutral_element. Qed.
+Print Assumptions C17_indexed_no_neutral_element.
 
 (* Per root, proof length and index at most one (value, proof) is accepted - no tree needed. *)
 Theorem C17_indexed_unique :
@@ -467,6 +497,21 @@ Example C17_depth32_bound :
   verify_with_index dg_eqb Pr (proof_of Pr t path) (troot Pr t) (At 0%N) (index_of path) = Fail /\
   verify dg_eqb Pr dg_gtb (proof_of (cpair Pr dg_gtb) t path) (troot (cpair Pr dg_gtb) t) (At 0%N) = true.
 Proof. vm_compute. repeat split. Qed.
+
+(* the monitor rejects an implementation that treats the all-zero digest as padding (skips it): padded proofs
+   accepted by verify / verify_with_index / the claims, the honest proof of a leaf whose sibling IS the all-zero
+   digest refused (Proofs/C17Pad.v, Module PadExamples); the correct answers on such a tree are accepted *)
+Example C17_monitor_rejects_padding :
+  snd (fst (check PadExamples.bad_zero_front)) = 1%N /\
+  snd (fst (check PadExamples.bad_zero_back)) = 1%N /\
+  snd (fst (check PadExamples.bad_zero_idx)) = 1%N /\
+  snd (fst (check PadExamples.bad_zero_claim)) = 1%N /\
+  snd (fst (check PadExamples.bad_zero_airdrop)) = 1%N /\
+  snd (fst (check PadExamples.bad_padded_honest_refused)) = 1%N /\
+  snd (fst (check PadExamples.bad_padded_claim_refused)) = 1%N /\
+  snd (fst (check PadExamples.bad_all_zero)) = 1%N /\
+  snd (fst (check PadExamples.good_padded_tree)) = 0%N.
+Proof. exact PadExamples.check_pad_examples. Qed.
 
 (* the monitor rejects each kind of violation on hand-made traces (Run/C17.v, Module Examples) *)
 Example C17_monitor_rejects :
